@@ -290,6 +290,36 @@ func pxDialThenFail(how string, variant int) pxScenario {
 		Tags: []string{"dial-then-fail", "dialled-fails=" + how}}
 }
 
+// every combination of present / absent sub-messages (body none / empty / token / large, status, trailer, reset of
+// every type, request headers): 288 shapes, 24 per scenario, through the three kinds of path (attached destination,
+// return route, dial on demand); the rig compares the whole envelope modulo the routing fields
+func pxShapeScenarios() []pxScenario {
+	var out []pxScenario
+	for base := 0; base < pxNumShapes; base += 24 {
+		b := &pxBuilder{tok: 800}
+		b.add(att(1)...)
+		b.add(att(2)...)
+		for sh := base; sh < base+24 && sh < pxNumShapes; sh++ {
+			a := b.send(1, 2)
+			a.Shape = sh
+			switch sh % 3 {
+			case 1:
+				a.Dst, a.Next, a.HasN = 7, []int64{2}, true // by return route
+			case 2:
+				a.Dst = 4 // dialled on demand
+			}
+			b.add(a)
+			a2 := b.send(2, 1)
+			a2.Shape = sh
+			b.add(a2)
+			b.add(PAct{Op: "dial", N: 4, M: "ok"})
+		}
+		out = append(out, pxScenario{Icp: base / 24 % 3 * 2 % 5, ByRef: base/24%2 == 0, Steps: b.steps,
+			Tags: []string{"shapes", fmt.Sprintf("shapes=%d..%d", base, base+23)}})
+	}
+	return out
+}
+
 func pxRandomWalk(r *rand.Rand, n int, faults bool) pxScenario {
 	b := &pxBuilder{tok: 1000}
 	names := []int64{1, 2, 3, 4, 5, 6, 102, 7}
@@ -309,9 +339,21 @@ func pxRandomWalk(r *rand.Rand, n int, faults bool) pxScenario {
 				if r.Intn(6) == 0 {
 					a.Gen = 1
 				}
+				if r.Intn(3) == 0 {
+					a.Shape = r.Intn(pxNumShapes)
+				}
 				switch r.Intn(12) {
 				case 0:
 					a.Bad, a.Src = "spoof", names[r.Intn(4)]
+					// sender-controlled routing fields naming the sender
+					switch r.Intn(4) {
+					case 0:
+						a.Rec = []int64{a.N}
+					case 1:
+						a.Rec = []int64{8, a.N}
+					case 2:
+						a.Next, a.HasN = []int64{a.N}, true
+					}
 				case 1:
 					a.Bad = "nohdr"
 				case 2:
@@ -406,6 +448,8 @@ func c16Scenarios() []pxScenario {
 			out = append(out, pxDialThenFail(how, v))
 		}
 	}
+	// 3c. every envelope shape
+	out = append(out, pxShapeScenarios()...)
 	// 4. routing fields x interceptors
 	out = append(out, pxRouting()...)
 	// 5. seeded random walks (no faults: everything accepted must arrive; with faults)
